@@ -14,7 +14,10 @@ def main():
     req = json.loads(sys.stdin.read() or '{}')
     func = req.get('func', '')
     try:
-        if func.startswith('json_util.') or func.startswith('lemma:'):
+        if req.get('mode') == 'all':
+            import replay_build
+            res = replay_build.replay_all(req)
+        elif func.startswith('json_util.') or func.startswith('lemma:'):
             import replay_json
             res = replay_json.replay(req)
         else:
